@@ -75,7 +75,7 @@ def html_algebra(ctx: Ctx) -> None:
                       what + f" -> {short(l.value)}{cond}",
                       ("; ".join(det) or f"fragments {frs} are not [left, right]") + cond,
                       witness="HTML('') + '<b>'  vs  rendering the two as adjacent children")
-        ctx.min_count(f"HTML.{meth} paths", n, 2)
+        ctx.min_count(f"HTML.{meth} paths", n, 1)
     # .7 UserString facts the algebra relies on
     us = prog.stdlib_module("collections").classes["UserString"]
     ctx.check("__iadd__" not in us.methods and prog.find_method(html_ci, "__iadd__") is None, "C04.mro",
